@@ -2,7 +2,7 @@ use crate::Backtrace;
 use crate::DatabaseKeyIndex;
 use crate::function::memo::{Memo, MemoHeader};
 use crate::function::{Configuration, IngredientImpl};
-use crate::zalsa_local::QueryRevisions;
+use crate::zalsa_local::{QueryOriginRef, QueryRevisions};
 use std::fmt;
 
 impl<C> IngredientImpl<C>
@@ -53,8 +53,12 @@ impl MemoHeader {
 
         // A memo that was computed as part of a cycle is never backdated (see `can_backdate`),
         // so its `changed_at` may legitimately be newer than that of a later re-execution
-        // outside of the cycle that produces the same value.
-        if self.revisions.changed_at > revisions.changed_at && !self.was_cycle_participant() {
+        // outside of the cycle that produces the same value. The same holds for a value that
+        // was assigned by another query (`specify`): it carries that query's `changed_at`.
+        if self.revisions.changed_at > revisions.changed_at
+            && !self.was_cycle_participant()
+            && !matches!(self.origin(), QueryOriginRef::Assigned(_))
+        {
             report_backdate_violation(index, self.revisions.changed_at, revisions.changed_at);
         }
 
